@@ -30,9 +30,19 @@ ASSUMPTIONS = [
 
 
 def run(ctx):
+    import c12_codecheck
     cov = M.run_property(ctx, "C12")
+    # unit-level stage: _check_previous_func_code (slow path) vs the Coq decision procedure [decide]
+    cov.update(c12_codecheck.stage(ctx))
+    cov["evaluations"] += cov.get("codecheck_cases", 0)
+    cov["traces_validated_against_impl"] += cov.get("codecheck_model_evaluations", 0)
     ctx.finish(cov, assumptions=ASSUMPTIONS)
 
 
 def replay(ctx, path):
+    import json
+    import c12_codecheck
+    rep = json.load(open(path)).get("replay", {})
+    if "codecheck_case" in rep:
+        return c12_codecheck.replay_case(rep["codecheck_case"])
     return M.replay_property(ctx, "C12", path)
